@@ -92,7 +92,9 @@ def run(ctx, family=FAMILY, detail=False, decorate_docs=False, space=False):
     index = catalogue()[1]
   for _ in range(nrand):
     rid += 1
-    ad = random_doc(ctx.rng, space=space, ruby_forms=(family == "c13"), max_nodes=60 if family == "c13" else 40)
+    # (the last fifth of the documents: mostly ruby, with timing / display of their own on bases and annotations, some empty)
+    ad = random_doc(ctx.rng, space=space, ruby_forms=(family == "c13"), max_nodes=60 if family == "c13" else 40,
+                    ruby_bias=(_ >= nrand - nrand // 5))
     if decorate_docs:
       decorate(ad, ctx.rng, index)
     if family in ("c01", "c02") and ctx.rng.random() < 0.25:
@@ -100,6 +102,14 @@ def run(ctx, family=FAMILY, detail=False, decorate_docs=False, space=False):
       jobs.append((ad, rid, None, detail, via(rid), ctx.rng.randrange(1 << 30)))
     else:
       jobs.append((ad, rid, None, detail, via(rid)))
+    origin[rid] = ("random", ad)
+  # small documents that are mostly ruby: bases / annotations (some of them empty) with timing and display of their own
+  for _ in range(2500 if thorough else 320):
+    rid += 1
+    ad = random_doc(ctx.rng, space=space, ruby_forms=(family == "c13"), max_nodes=18, ruby_bias=True)
+    if decorate_docs:
+      decorate(ad, ctx.rng, index)
+    jobs.append((ad, rid, None, detail, via(rid)))
     origin[rid] = ("random", ad)
   # long documents (hundreds of consecutive siblings, hundreds of significant times)
   from ..docgen import long_doc
